@@ -17,9 +17,11 @@ EXTENDS Naturals, Sequences, FiniteSets, TLC
 Commands == {"none", "new", "from-master-xprv", "from-mnemonic", "from-bip39-seed", "from-entropy-hex"}
 
 \* ---- witness classes ---------------------------------------------------
-AccountClasses == {"default", "0", "5", "2^31-2", "2^31-1", "2^31", "-1", "x"}
+\* "+5", " 7", "1_0": decorated numerals that Python's int() reads as 5, 7, 10 - a command line may refuse them; if it
+\* takes them, the wallet is the one for that number
+AccountClasses == {"default", "0", "5", "2^31-2", "2^31-1", "2^31", "-1", "x", "+5", " 7", "1_0"}
 AccountVerdict(a) == CASE a \in {"default", "0", "5", "2^31-2"} -> "accept"
-                       [] a = "2^31-1" -> "either"          \* a legal hardened account; the program is stricter
+                       [] a \in {"2^31-1", "+5", " 7", "1_0"} -> "either"   \* 2^31-1: a legal hardened account; the program is stricter
                        [] OTHER -> "reject"
 
 BoundClasses == {"-1", "0", "1", "3", "2^31-1", "2^31", "2^31+1", "2^32-2", "2^32-1", "x"}
